@@ -60,11 +60,11 @@ def lhnew(name, method_file, tiers, extra_defs=(), props_extra=(), big=None):
           cbmc_flags=['--no-signed-overflow-check'],
           note='signed-overflow check off: (2 + code % 2) << 30 overflows int for offset code 63 (undefined behaviour noted in DESIGN.md section 7; the negative result is treated as failure by the caller; not a memory-safety matter)')
         g('lhark_decode_copy_count', 'h_lhark_decode_copy_count', enforce='lhark_decode_copy_count', replace=['read_bits'])
-    g('output_byte', 'h_output_byte', enforce='output_byte', timeout=600)
+    g('output_byte', 'h_output_byte', enforce='output_byte', timeout=600, backend=['cvc5', 'sat'], props=P + ['C01'])
     g('copy_from_history', 'h_copy_from_history', enforce='copy_from_history', replace=['read_offset_code', 'output_byte'],
-      props=T13, timeout=900, expect=['postcondition', 'loop_decreases', 'loop_invariant_step'])
+      defs=['VG_OB_LIGHT', 'VG_ROC_LIGHT'], props=T13, timeout=900, expect=['postcondition', 'loop_decreases', 'loop_invariant_step'])
     g('copy_from_history.func', 'h_copy_from_history_func', route='legacy', replace=['read_offset_code'],
-      defs=['VG_HARNESS_MODE', 'VG_CALLSITE_PRE_ELSEWHERE'], backend=['cvc5', 'z3'], props=['C01'], timeout=900,
+      defs=['VG_HARNESS_MODE', 'VG_CALLSITE_PRE_ELSEWHERE', 'VG_ROC_LIGHT'], backend=['cvc5', 'z3'], props=['C01'], timeout=900,
       functions=['copy_from_history', 'output_byte'],
       expect=['loop invariant is preserved', 'loop invariant before entry', 'decreases clause'])
     g('read_length_value.func', 'h_read_length_value_func', route='plain', defs=['VG_FUNC'], props=['C01'], level='bounded',
